@@ -277,6 +277,8 @@ def evaluate(prop, cases, impl, model, spec):
         mobs = model[i] if i < len(model) else 'MISSING'
         sobs = spec[i] if i < len(spec) else '-'
         r = 'ok'
+        if iobs == 'SKIPPED':
+            out.append(r); continue
         if verdict.startswith('FAIL'):
             parts = verdict.split(':', 2)
             r = ('violation', parts[1] if len(parts) > 1 else 'fail', parts[2] if len(parts) > 2 else '')
